@@ -321,7 +321,8 @@ def main_run(pid: str, tier: str, seed_val: int) -> int:
             for s in range(ns):
                 jobs.append(("enum", (pid, cname, tier, s, ns, disabled)))
         else:
-            n = comp["examples"]
+            # VERIF_SCALE: fraction of the tier's case count (e.g. 0.1 of the thorough tier as a time-boxed run)
+            n = max(1, int(comp["examples"] * float(os.environ.get("VERIF_SCALE") or 1)))
             ns = min(NPROC, max(1, n // max(1, comp.get("min_per_shard", 20))))
             per = max(1, n // ns)
             for s in range(ns):
